@@ -321,6 +321,26 @@ def unsound_witness(qspec, pspec, occ):
     """(sigma, o) with o an occurrence of p in sigma and o[occ] not an occurrence of q, or None."""
     qp, qsh = qspec[1], spec_shading(qspec)
     pp, psh = pspec[1], spec_shading(pspec)
+    if len(pp) >= 5:
+        # all sigma of length |p|+1 are too many: the candidates that decide are p itself and p
+        # with one point inserted in a box that is not shaded (ref_c06)
+        k = len(pp)
+        cands = [(tuple(pp), tuple(range(k)))]
+        for bx in range(k + 1):
+            for by in range(k + 1):
+                if (bx, by) not in psh:
+                    cands.append((R.insert_point(pp, bx, by), tuple(i for i in range(k + 1) if i != bx)))
+        for sigma, o in cands:
+            try:
+                image = tuple(o[i] for i in occ)
+                ok = (R.std([sigma[i] for i in image]) == tuple(qp) and list(image) == sorted(set(image))
+                      and all(R.cell_of(image, sigma, z) not in qsh
+                              for z in range(len(sigma)) if z not in image))
+            except Exception:  # noqa
+                ok = False
+            if not ok:
+                return sigma, o
+        return None
     for n in range(len(pp), horizon(len(pp)) + 1):
         for sigma in R.perms(n):
             qocc = set(R.mesh_occurrences(qp, qsh, sigma))
